@@ -13,3 +13,142 @@ Theorem C12_case_sound :
       traceA (sstep d1 mid) (power_up_s d1) ins = traceA (sstep d2 mid) (power_up_s d2) ins.
 Proof. exact dcheck_s_sound. Qed.
 Print Assumptions C12_case_sound.
+
+(** ------------------------------------------------------------------------------------------------
+    ALL instantiation graphs: the compiler's instantiation bookkeeping as coded (Models/EmitOrder.v:
+    Library.from_top_entity, the per-class template caches, EntityInst._port_map).  A graph is a list of
+    templates; a template is identified by its position and instantiates templates with smaller positions
+    ([wf_graph], acyclic by construction); the same template may be instantiated any number of times by
+    any number of parents at any depth. *)
+From Cohdl Require Import Models.EmitOrder Models.EmitOrderProofs.
+From Coq Require Import Permutation Lia.
+
+(** a diamond with a shared leaf at two depths: 0 leaf; 1 = mid(0,0); 2 = mid(0); 3 = top(1, 0, 2, 1) *)
+Definition C12_diamond : graph :=
+  [ mktmpl [76%N] [] [] [];
+    mktmpl [77%N] [] [mkinst 0 []; mkinst 0 []] [];
+    mktmpl [78%N] [] [] [mkinst 0 []];
+    mktmpl [84%N] [] [mkinst 1 []; mkinst 0 []; mkinst 2 []] [mkinst 1 []] ].
+Example C12_diamond_wf : wf_graph C12_diamond /\ emit_order C12_diamond 3 = [0; 1; 2; 3].
+Proof. split; [apply wf_graphb_sound; vm_compute; reflexivity | vm_compute; reflexivity]. Qed.
+
+(** (i) each reachable template exactly once *)
+Theorem C12_emit_order_each_once : forall g top, wf_graph g ->
+  NoDup (emit_order g top) /\ forall x, In x (emit_order g top) <-> greach g top x.
+Proof. exact emit_order_each_once. Qed.
+Print Assumptions C12_emit_order_each_once.
+
+(** (ii) every sub-entity, direct or transitive, stands before every emitted entity that uses it *)
+Theorem C12_emit_order_sub_before_user : forall g top u x, wf_graph g ->
+  In u (emit_order g top) -> gdesc g u x ->
+  exists l1 l2, emit_order g top = l1 ++ u :: l2 /\ In x l1.
+Proof. exact emit_order_sub_first. Qed.
+Print Assumptions C12_emit_order_sub_before_user.
+Example C12_emit_order_sub_before_user_nonvacuous :
+  wf_graph C12_diamond /\ In 3 (emit_order C12_diamond 3) /\ gdesc C12_diamond 3 0.
+Proof.
+  split; [apply wf_graphb_sound; vm_compute; reflexivity|]. split; [vm_compute; auto|].
+  apply desc_step with (c := 1); [vm_compute; auto|]. apply desc_child. vm_compute; auto.
+Qed.
+
+(** (iii) the top entity is the last unit *)
+Theorem C12_emit_order_top_last : forall g top, wf_graph g -> exists m, emit_order g top = m ++ [top].
+Proof. exact emit_order_top_last. Qed.
+Print Assumptions C12_emit_order_top_last.
+
+(** (iv) the emitted list does not depend on how often a template is instantiated: only the order of the FIRST
+    instances of the distinct sub-templates of every template matters *)
+Theorem C12_emit_order_multiplicity : forall g g' top, wf_graph g ->
+  (forall p, dd [] (children g p) = dd [] (children g' p)) ->
+  emit_order g top = emit_order g' top.
+Proof. exact emit_order_multiplicity. Qed.
+Print Assumptions C12_emit_order_multiplicity.
+Theorem C12_emit_order_duplicate_instance : forall g g' top, wf_graph g ->
+  (forall p, children g' p = children g p \/
+             exists l1 c l2, children g p = l1 ++ l2 /\ children g' p = l1 ++ c :: l2 /\ In c l1) ->
+  emit_order g top = emit_order g' top.
+Proof. exact emit_order_duplicate_instance. Qed.
+Print Assumptions C12_emit_order_duplicate_instance.
+Example C12_emit_order_multiplicity_nonvacuous :
+  let g' := [ mktmpl [76%N] [] [] []; mktmpl [77%N] [] [mkinst 0 []] [];
+              mktmpl [78%N] [] [] [mkinst 0 []; mkinst 0 []; mkinst 0 []];
+              mktmpl [84%N] [] [mkinst 1 []; mkinst 0 []; mkinst 0 []] [mkinst 2 []; mkinst 1 []; mkinst 2 []] ] in
+  wf_graph C12_diamond /\ (forall p, dd [] (children C12_diamond p) = dd [] (children g' p)) /\ g' <> C12_diamond.
+Proof.
+  split; [apply wf_graphb_sound; vm_compute; reflexivity|]. split; [|discriminate].
+  intros p. do 4 (destruct p as [|p]; [vm_compute; reflexivity|]).
+  unfold children, tmpl. rewrite !nth_overflow by (cbn; lia). reflexivity.
+Qed.
+
+(** an accepted compilation: the units are the emitted list, their VHDL names are pairwise different
+    (case-insensitively) and every instantiation passed the checks of Entity.__init__ *)
+Theorem C12_emit_order_library : forall g top l, library g top = Some l ->
+  l = emit_order g top /\ NoDup (map (unit_name g) l) /\
+  forall p i, In p l -> In i (subblocks (tmpl g p)) -> inst_ok (t_ports (tmpl g (i_tmpl i))) (i_kw i) = true.
+Proof. exact library_spec. Qed.
+Print Assumptions C12_emit_order_library.
+Example C12_emit_order_library_nonvacuous : library C12_diamond 3 = Some [0; 1; 2; 3].
+Proof. vm_compute. reflexivity. Qed.
+(** class names that differ only in case are rejected *)
+Example C12_emit_order_library_case_collision :
+  library [mktmpl [76%N; 101%N] [] [] []; mktmpl [108%N; 69%N] [] [] []; mktmpl [84%N] [] [mkinst 0 []; mkinst 1 []] []] 2 = None.
+Proof. vm_compute. reflexivity. Qed.
+
+(** the template caches: no architecture method runs twice in one compilation (every graph) ... *)
+Theorem C12_emit_order_arch_runs_once : forall g top, NoDup (arch_runs g top).
+Proof. exact arch_runs_nodup. Qed.
+Print Assumptions C12_emit_order_arch_runs_once.
+(** ... and the architectures that run are exactly those of the emitted templates, each once *)
+Theorem C12_emit_order_elaborated_once_each : forall g top, wf_graph g ->
+  NoDup (arch_runs g top) /\ forall x, In x (arch_runs g top) <-> In x (emit_order g top).
+Proof. exact arch_runs_once_each. Qed.
+Print Assumptions C12_emit_order_elaborated_once_each.
+Example C12_emit_order_elaborated_nonvacuous : arch_runs C12_diamond 3 = [3; 1; 0; 2].
+Proof. vm_compute. reflexivity. Qed.
+(** ... and two instantiation requests get the same template iff they name the same class; the second request for
+    a class creates nothing *)
+Theorem C12_emit_order_template_shared : forall cache c1 c2, cache_wf cache ->
+  let '(cache1, h1, _) := cache_step cache c1 in
+  let '(_, h2, created2) := cache_step cache1 c2 in
+  (h1 = h2 <-> c1 = c2) /\ (c1 = c2 -> created2 = false).
+Proof. exact cache_step_shared. Qed.
+Print Assumptions C12_emit_order_template_shared.
+Example C12_emit_order_template_shared_nonvacuous :
+  cache_wf [] /\ cache_wf (fst (fst (cache_step (fst (fst (cache_step [] 5))) 2))) /\
+  cache_run [] [5; 2; 5; 5; 2] = ([0; 1; 0; 0; 1], 2).
+Proof.
+  split; [apply cache_wf_nil|]. split; [apply cache_step_wf, cache_step_wf, cache_wf_nil|vm_compute; reflexivity].
+Qed.
+
+(** (v) the port map of an instance: keyword order is irrelevant ... *)
+Theorem C12_port_map_keyword_order : forall ports kw kw', NoDup (map fst kw) -> Permutation kw kw' ->
+  port_map ports kw' = port_map ports kw.
+Proof. exact port_map_perm. Qed.
+Print Assumptions C12_port_map_keyword_order.
+(** ... every declared formal exactly once, in declaration order ... *)
+Theorem C12_port_map_formals_in_order : forall ports kw l, port_map ports kw = Some l ->
+  map e_formal l = map p_name ports.
+Proof. exact port_map_formals. Qed.
+Print Assumptions C12_port_map_formals_in_order.
+(** ... each with the actual given for its NAME and the conversion [fconv] decides ... *)
+Theorem C12_port_map_each_actual : forall ports kw l, NoDup (map fst kw) -> port_map ports kw = Some l ->
+  Forall2 (fun p e => e_formal e = p_name p /\ In (p_name p, e_actual e) kw /\ e_fconv e = fconv p (e_actual e)) ports l.
+Proof. exact port_map_entries. Qed.
+Print Assumptions C12_port_map_each_actual.
+(** ... and every instantiation accepted by Entity.__init__ has one *)
+Theorem C12_port_map_total : forall ports kw, inst_ok ports kw = true -> exists l, port_map ports kw = Some l.
+Proof. exact port_map_total. Qed.
+Print Assumptions C12_port_map_total.
+Example C12_port_map_nonvacuous :
+  let u2 := TVec KUns 2 in let bv4 := TVec KSlv 4 in
+  let ports := [mkport 1 DIn u2; mkport 2 DIn TBit; mkport 3 DOut u2] in
+  let kw := [(3, mkact 7 (SSlice 3 2) bv4 u2); (1, mkact 5 SWhole u2 u2); (2, mkact 6 (SElem 0) bv4 TBit)]%N in
+  let kw' := [(2, mkact 6 (SElem 0) bv4 TBit); (3, mkact 7 (SSlice 3 2) bv4 u2); (1, mkact 5 SWhole u2 u2)]%N in
+  NoDup (map fst kw) /\ Permutation kw kw' /\ inst_ok ports kw = true /\
+  port_map ports kw = Some [mkpm 1 DIn None (mkact 5 SWhole u2 u2); mkpm 2 DIn None (mkact 6 (SElem 0) bv4 TBit);
+                            mkpm 3 DOut (Some KSlv) (mkact 7 (SSlice 3 2) bv4 u2)]%N.
+Proof.
+  cbv zeta. split; [repeat constructor; cbn; intuition discriminate|].
+  split; [|split; vm_compute; reflexivity].
+  eapply perm_trans; [apply perm_skip, perm_swap|]. apply perm_swap.
+Qed.
